@@ -7,6 +7,7 @@ pub fn parse_statement(
     let trimmed = line.content.trim();
     // 1-based line number for error messages; captured before any sub-parser advances the index.
     let ln = *line_index + 1;
+    let _nesting = NestingGuard::enter().map_err(|e| e.with_line(ln))?;
 
     if trimmed.is_empty() || trimmed.starts_with("//") {
         *line_index += 1;
